@@ -848,11 +848,11 @@ class PrepareAst:
             assert after_starred >= 0
 
             if after_starred == 0:
-                return [*source[0:starred_index], source[starred_index:]]
+                return [*source[0:starred_index], list(source[starred_index:])]
             else:
                 return [
                     *source[0:starred_index],
-                    source[starred_index:-after_starred],
+                    list(source[starred_index:-after_starred]),
                     *source[-after_starred:],
                 ]
 
